@@ -127,6 +127,48 @@ theorem held_queue_sublist : ∀ (f lvl : Nat) (ign : List Cls) (subs : Subs) (o
         | raise => simp [bcastsOp]
       · exact ih _ _ _ _
 
+theorem mem_seqH_queue {o : Spec.HOut} {k : Subs → Spec.HOut} {m : Msg}
+    (h : m ∈ (Spec.seqH o k).2.2.1) : m ∈ o.2.2.1 ∨ m ∈ (k o.1).2.2.1 := by
+  unfold Spec.seqH at h
+  by_cases h' : o.2.2.2 = .ok
+  · simp only [h', if_true, List.mem_append] at h
+    exact h
+  · simp only [h', if_false] at h
+    exact Or.inl h
+
+/-- A queued message passed the ignore test of a context that contains the current one: it is not
+ignored where the block started (so the ignore test repeated at flush time never drops it). -/
+theorem held_queue_not_ignored : ∀ (f lvl : Nat) (ign : List Cls) (subs : Subs) (ops : List Op)
+    (m : Msg), m ∈ (Spec.held f lvl ign subs ops).2.2.1 → m.cls ∉ ign := by
+  intro f
+  induction f with
+  | zero => intro lvl ign subs ops m h; cases ops <;> simp [Spec.held] at h
+  | succ f ih =>
+    intro lvl ign subs ops m h
+    cases ops with
+    | nil => simp [Spec.held] at h
+    | cons op rest =>
+      simp only [Spec.held] at h
+      rcases mem_seqH_queue h with h1 | h2
+      · cases op with
+        | bcast m' =>
+          by_cases hc : m'.cls ∈ ign
+          · simp [hc] at h1
+          · simp only [List.contains_iff_mem, hc, if_false, List.mem_singleton] at h1
+            rw [h1]; exact hc
+        | delay body => exact ih _ _ _ _ _ h1
+        | ignore c body =>
+          have := ih _ _ _ _ _ h1
+          exact fun hm => this (List.mem_cons_of_mem _ hm)
+        | «catch» body => exact ih _ _ _ _ _ h1
+        | mark n => simp at h1
+        | sub l c s => simp at h1
+        | unsub l c => simp at h1
+        | unsubAll l => simp at h1
+        | kill l => simp at h1
+        | raise => simp at h1
+      · exact ih _ _ _ _ _ h2
+
 theorem seqH_complete {o : Spec.HOut} {k : Subs → Spec.HOut} {a b : List Msg}
     (h1 : o.2.2.2 ≠ .fuel → o.2.2.2 = .ok ∧ o.2.2.1 = a)
     (h2 : (k o.1).2.2.2 ≠ .fuel → (k o.1).2.2.2 = .ok ∧ (k o.1).2.2.1 = b)
